@@ -22,6 +22,7 @@ type fctx struct {
 	nloops   int
 	loop     *loopCtx // innermost enclosing loop, nil at function level
 	tmp      int
+	lastCallRes []string // result projections of the latest callStmt with no left-hand side
 }
 
 func (c *fctx) site(p token.Pos) string {
@@ -135,6 +136,10 @@ func (c *fctx) expr(e ast.Expr) string {
 			if c.x.fieldKind(sel.Type()) == kOther {
 				bad("field %s of unsupported type %s", t.Sel.Name, sel.Type().String())
 			}
+			if c.x.kindOf(c.typeOf(t.X)) == kHeapPtr { // p.f: read the record p points to
+				c.useHeap()
+				return fmt.Sprintf("(← Go.heapGet %s %s).%s", c.expr(t.X), c.site(e.Pos()), leanIdent(t.Sel.Name))
+			}
 			return c.expr(t.X) + "." + leanIdent(t.Sel.Name)
 		}
 		if v, ok := c.info.Uses[t.Sel].(*types.Var); ok {
@@ -147,6 +152,9 @@ func (c *fctx) expr(e ast.Expr) string {
 		}
 		bad("selector %s at %s", t.Sel.Name, c.site(e.Pos()))
 	case *ast.IndexExpr:
+		if c.x.kindOf(c.typeOf(t.X)) == kMap { // m[k]: the zero value when absent
+			return fmt.Sprintf("((Go.mapGet? %s %s).getD %s)", c.expr(t.X), c.expr(t.Index), c.x.zero(c.typeOf(e)))
+		}
 		if c.x.kindOf(c.typeOf(t.X)) != kBytes && c.x.kindOf(c.typeOf(t.X)) != kList {
 			bad("index into %s", c.typeOf(t.X).String())
 		}
@@ -170,6 +178,22 @@ func (c *fctx) expr(e ast.Expr) string {
 	return ""
 }
 
+// monad of the code being emitted right now (function or innermost loop body).
+func (c *fctx) monad() string {
+	switch {
+	case c.fi.effectful:
+		return "StateT σ R"
+	case c.fi.heapful:
+		return "StateT Heap R"
+	}
+	return "R"
+}
+
+func (c *fctx) useHeap() {
+	c.fi.heapful = true
+	c.x.heapUsed = true
+}
+
 func (c *fctx) nilOf(t types.Type, pos token.Pos) string {
 	switch c.x.kindOf(t) {
 	case kBytes:
@@ -180,6 +204,8 @@ func (c *fctx) nilOf(t types.Type, pos token.Pos) string {
 		return "(none : GoErr)"
 	case kPtrStruct, kRef:
 		return "none"
+	case kHeapPtr:
+		return "(none : Go.Ptr)"
 	}
 	bad("nil of type %s at %s", t.String(), c.site(pos))
 	return ""
@@ -301,6 +327,10 @@ func (c *fctx) unary(t *ast.UnaryExpr) string {
 		if _, ok := t.X.(*ast.CompositeLit); ok && c.x.kindOf(c.typeOf(t)) == kPtrStruct {
 			return c.expr(t.X)
 		}
+		if _, ok := t.X.(*ast.CompositeLit); ok && c.x.kindOf(c.typeOf(t)) == kHeapPtr { // &client{...}: a new record
+			c.useHeap()
+			return "(← Go.heapAlloc " + c.expr(t.X) + ")"
+		}
 	}
 	bad("unary %s at %s", t.Op, c.site(t.Pos()))
 	return ""
@@ -315,10 +345,7 @@ func (c *fctx) binary(t *ast.BinaryExpr) string {
 	case token.LAND, token.LOR:
 		a, b := c.expr(t.X), c.expr(t.Y)
 		if failing(b) { // keep Go's short-circuit: the right operand may panic (or act on the world)
-			m := "R Bool"
-			if c.fi.effectful {
-				m = "StateT σ R Bool"
-			}
+			m := c.monad() + " Bool"
 			if t.Op == token.LAND {
 				return fmt.Sprintf("(← (do if %s then pure %s else pure false : %s))", a, b, m)
 			}
@@ -338,7 +365,7 @@ func (c *fctx) binary(t *ast.BinaryExpr) string {
 			switch c.x.kindOf(c.typeOf(o)) {
 			case kBytes, kList:
 				s = c.expr(o) + ".isEmpty"
-			case kError, kRef:
+			case kError, kRef, kHeapPtr:
 				s = c.expr(o) + ".isNone"
 			default:
 				bad("nil comparison of %s at %s", c.typeOf(o).String(), c.site(t.Pos()))
@@ -349,7 +376,7 @@ func (c *fctx) binary(t *ast.BinaryExpr) string {
 			return "(" + s + ")"
 		}
 		switch c.x.kindOf(c.typeOf(t.X)) {
-		case kBool, kU8, kU16, kU32, kU64, kInt, kBytes:
+		case kBool, kU8, kU16, kU32, kU64, kInt, kBytes, kHeapPtr:
 		case kRef: // pointer identity
 			if t.Op == token.EQL {
 				return "(Go.refEq " + c.expr(t.X) + " " + c.expr(t.Y) + ")"
